@@ -71,6 +71,94 @@ func runC06(a *A) {
 	c05R4(a, r, "C06-R5")
 	c06R6(a, r)
 	c06R7(a, r)
+	c06R8(a, r)
+}
+
+// R8: (a) the EOF sentinel is a value of its own - initialised by errors.New / fmt.Errorf in the package initialiser, not
+// an alias of another package's error (io.EOF is what a dropped connection returns: it would be filtered as a clean end);
+// (b) the reader's exit reason is received from its channel only by Error() (and functions only Error() calls): anything
+// else that receives from it - a drain in close(), a logger - consumes the reason before it can be reported.
+func c06R8(a *A, r *Roles) {
+	const rule = "C06-R8"
+	w := a.W
+	sentinel := w.Root.Var("errStreamEOF")
+	if a.need(sentinel != nil, rule, "EOF sentinel errStreamEOF") {
+		var init *ssa.Store
+		n := 0
+		for _, fn := range w.srcFuncs(w.Root) {
+			instrs(fn, func(in ssa.Instruction) {
+				if st, ok := in.(*ssa.Store); ok && st.Addr == ssa.Value(sentinel) {
+					n++
+					init = st
+				}
+			})
+		}
+		if init == nil {
+			// a package initialiser synthesised by go/ssa
+			if pi := w.Root.Func("init"); pi != nil {
+				instrs(pi, func(in ssa.Instruction) {
+					if st, ok := in.(*ssa.Store); ok && st.Addr == ssa.Value(sentinel) {
+						n++
+						init = st
+					}
+				})
+			}
+		}
+		switch {
+		case init == nil:
+			a.undecided(rule, "sentinel-own@errStreamEOF", "-", "initialisation of the EOF sentinel not found")
+		case n != 1:
+			a.viol(rule, "sentinel-own@errStreamEOF", w.posOf(init), "the EOF sentinel is assigned %d times", n)
+		default:
+			c, _ := strip(init.Val).(*ssa.Call)
+			if mi, isMI := strip(init.Val).(*ssa.MakeInterface); isMI {
+				c, _ = strip(mi.X).(*ssa.Call)
+			}
+			fresh := false
+			if c != nil {
+				if cal := c.Common().StaticCallee(); cal != nil && cal.Pkg != nil {
+					pp, nm := cal.Pkg.Pkg.Path(), cal.Name()
+					fresh = pp == "errors" && nm == "New" || pp == "fmt" && nm == "Errorf"
+				}
+			}
+			a.check(fresh, rule, "sentinel-own@errStreamEOF", w.posOf(init), "a value of its own (errors.New / fmt.Errorf)",
+				"the EOF sentinel is "+describe(strip(init.Val))+", not a value of its own: an error of the transport that equals it (a dropped connection returns io.EOF) is filtered by Error() as if the master had ended the stream")
+		}
+	}
+	errPrivate := readerPrivate(w, r.ErrorM)
+	isReasonChan := func(v ssa.Value) bool {
+		ch, ok := v.Type().Underlying().(*types.Chan)
+		return ok && typeIs(ch.Elem(), rootPath, "Error")
+	}
+	nRecv, bad := 0, 0
+	for _, fn := range w.srcFuncs(w.Root) {
+		instrs(fn, func(in ssa.Instruction) {
+			recv := false
+			switch x := in.(type) {
+			case *ssa.UnOp:
+				recv = x.Op == token.ARROW && isReasonChan(x.X)
+			case *ssa.Select:
+				for _, st := range x.States {
+					if st.Dir == types.RecvOnly && isReasonChan(st.Chan) {
+						recv = true
+					}
+				}
+			}
+			if !recv {
+				return
+			}
+			nRecv++
+			if fn != r.ErrorM && !errPrivate[fn] {
+				bad++
+				a.viol(rule, fmt.Sprintf("reason-receiver@%s#%d", fn.Name(), bad), w.posOf(in), "%s receives from the channel that carries the reader's exit reason: the reason is consumed before Error() can report it, so a lost connection or a master error ends with Error()==nil", fnName(fn))
+			}
+		})
+	}
+	if nRecv == 0 {
+		a.undecided(rule, "reason-receiver@Error", w.pos(r.ErrorM.Pos()), "no receive from the reason channel found")
+	} else if bad == 0 {
+		a.hold(rule, "reason-receiver@Error", w.pos(r.ErrorM.Pos()), "the reason channel is received from only by Error() (%d receive(s))", nRecv)
+	}
 }
 
 func c06R1(a *A, r *Roles, ar *Arms) {
